@@ -62,7 +62,7 @@ type H struct{}
 
 func (H) Name() string { return "racesim" }
 
-var scenarios = []string{"tracker", "metrics", "cluster", "crdt", "informers"}
+var scenarios = []string{"tracker", "metrics", "cluster", "crdt", "informers", "tracker_fail"}
 
 var opsOf = map[string][]string{
 	"tracker":   {"track", "track", "untrack", "status", "statusall", "recover", "recoverall", "statusall", "release", "opcount"},
@@ -70,6 +70,9 @@ var opsOf = map[string][]string{
 	"cluster":   {"alert", "alert", "alert", "alerts", "alerts", "pin", "unpin", "statusall", "status", "peers", "id", "pins", "recoverall", "sync"},
 	"crdt":      {"logpin", "logpin", "logunpin", "list", "trust", "distrust", "peers", "clean_no"},
 	"informers": {"disk", "numpin", "disk", "numpin", "pause"},
+	// directed: operations keep failing (every other daemon call is refused) while
+	// the other callers read statuses in the same instants
+	"tracker_fail": {"track", "recover", "status", "status", "statusall", "status", "recoverall", "untrack"},
 }
 
 func (H) Generate(prop, tier string, seed uint64) *simkit.Plan {
@@ -90,11 +93,22 @@ func (H) Generate(prop, tier string, seed uint64) *simkit.Plan {
 	p.SetKnob("lock_yield", int64([]int{0, 30, 100, 300, 600}[r.Intn(5)]))
 	burst := r.Chance(0.2) // many alerts: the list is reset above 1000 entries
 	n := r.Range(8, 60)
+	if p.Scenario == "tracker_fail" {
+		n = r.Range(40, 160)
+		p.SetKnob("lock_yield", int64([]int{100, 300, 600}[r.Intn(3)]))
+		p.SetKnob("hold", 0)
+		p.SetKnob("fail_half", 1)
+		p.SetKnob("ncids", int64(r.Range(1, 3)))
+	}
 	ops := opsOf[p.Scenario]
 	for i := 0; i < n; i++ {
 		st := Step{Client: r.Intn(clients), Op: ops[r.Intn(len(ops))], Cid: r.Intn(5), Peer: r.Intn(4)}
 		// most calls land at the same instants as calls of other clients
 		st.Ms = []int{0, 0, 0, 1, 5, 50, 400}[r.Intn(7)]
+		if p.Scenario == "tracker_fail" {
+			st.Ms = []int{0, 0, 0, 0, 1, 5}[r.Intn(6)]
+			st.Cid = r.Intn(int(p.Knob("ncids", 2)))
+		}
 		st.Valid = r.Chance(0.8)
 		st.TTLMs = []int{1, 50, 500, 5000}[r.Intn(4)]
 		st.N = r.Range(1, 4)
@@ -119,7 +133,7 @@ func (H) Execute(t *testing.T, plan *simkit.Plan, run *simkit.Run) {
 	var do func(Step)
 	var cleanup func()
 	switch plan.Scenario {
-	case "tracker":
+	case "tracker", "tracker_fail":
 		do, cleanup = trackerWorld(plan, run)
 	case "metrics":
 		do, cleanup = metricsWorld(plan, run)
@@ -235,6 +249,16 @@ func trackerWorld(plan *simkit.Plan, run *simkit.Run) (func(Step), func()) {
 	}
 	tr.SetClient(rpc.NewClientWithServer(nil, "/sim/rpc", srv))
 	ctx := context.Background()
+	// one entry is one consistent reading of the operation: an error status comes
+	// with its message (they are set together)
+	checkOne := func(what string, pi *api.PinInfo) {
+		if pi.Status.Match(api.TrackerStatusError) && pi.Error == "" {
+			run.Violate("C18/torn_status", "error_without_message", "%s reports %s as %s with an empty error message: status and message of a failed operation were read apart", what, pi.Cid, pi.Status)
+		}
+		if !pi.Status.Match(api.TrackerStatusError) && pi.Error != "" && pi.Status != api.TrackerStatusUndefined {
+			run.Probe("message_without_error_status")
+		}
+	}
 	checkAll := func(l []*api.PinInfo) {
 		seen := map[string]bool{}
 		for _, pi := range l {
@@ -246,6 +270,7 @@ func trackerWorld(plan *simkit.Plan, run *simkit.Run) (func(Step), func()) {
 				run.Violate("C18/torn_status", "dup", "StatusAll lists %s twice", pi.Cid)
 			}
 			seen[pi.Cid.String()] = true
+			checkOne("StatusAll", pi)
 		}
 		run.Probe("status_lists_checked")
 	}
@@ -254,6 +279,10 @@ func trackerWorld(plan *simkit.Plan, run *simkit.Run) (func(Step), func()) {
 		pin := api.PinCid(c)
 		pin.Allocations = []peer.ID{self}
 		pin.ReplicationFactorMin, pin.ReplicationFactorMax = 1, 1
+		if plan.Knob("fail_half", 0) == 1 && (s.Op == "track" || s.Op == "recover" || s.Op == "recoverall") && s.N%2 == 1 {
+			ipfs.Script("err")
+			run.Probe("daemon_failures_scripted")
+		}
 		switch s.Op {
 		case "track":
 			st.mu.Lock()
@@ -268,6 +297,8 @@ func trackerWorld(plan *simkit.Plan, run *simkit.Run) (func(Step), func()) {
 		case "status":
 			if pi := tr.Status(ctx, c); pi == nil || !pi.Cid.Equals(c) {
 				run.Violate("C18/torn_status", "status", "Status(%s) answered for %v", c, pi)
+			} else {
+				checkOne("Status", pi)
 			}
 		case "statusall":
 			checkAll(tr.StatusAll(ctx, api.TrackerStatusUndefined))
@@ -277,7 +308,13 @@ func trackerWorld(plan *simkit.Plan, run *simkit.Run) (func(Step), func()) {
 			l, _ := tr.RecoverAll(ctx)
 			checkAll(l)
 		case "release":
-			ipfs.Release(s.N, []string{"ok", "err"}[s.Cid%2])
+			// completes a parked daemon call; when none is parked (or calls are not
+			// held in this plan) the next daemon call gets the outcome instead, so that
+			// operations fail in every plan while others read their status
+			if !ipfs.Release(s.N, []string{"ok", "err"}[s.Cid%2]) && s.Cid%2 == 1 {
+				ipfs.Script("err")
+				run.Probe("daemon_failures_scripted")
+			}
 		case "opcount":
 			tr.OpContext(ctx, c)
 		case "shutdown":
